@@ -10,6 +10,7 @@ package main
 
 import (
 	"fmt"
+	"go/ast"
 	"go/constant"
 	"go/token"
 	"go/types"
@@ -265,4 +266,197 @@ func ruleSCarry(c *Ctx) {
 		return
 	}
 	c.Fail("S-carry", key, fn.Pos(), fmt.Sprintf("the %d-byte accumulator is multiplied by %s per character but neither the carry out of its top byte is tested nor the digit count bounded: an over-long value wraps modulo %s^%d and a string that is not an address validates", width, base, radix, width))
+}
+
+// T-b58 (C15): the digit the validator's decoder reads for a character. For every byte value the digit is the
+// character's position in the Base58 alphabet 123456789ABCDEFGHJKLMNPQRSTUVWXYZabcdefghijkmnopqrstuvwxyz and a
+// byte outside the alphabet is refused: decided by reading the digit as an index search (bytes.IndexByte /
+// strings.IndexByte) in a constant that nothing writes, tested negative before it is used. Any other way of
+// mapping characters to digits is not read (undecided), because its table would have to be evaluated.
+const base58Alphabet = "123456789ABCDEFGHJKLMNPQRSTUVWXYZabcdefghijkmnopqrstuvwxyz"
+
+func ruleTB58(c *Ctx) {
+	fn := c.P.Func("bscript", "*a25", "set58")
+	if fn == nil {
+		c.Undecided("T-b58", "a25.set58/digit", token.NoPos, "function not found")
+		return
+	}
+	v := viewOf(fn)
+	var search *ssa.Call
+	alphabet, problem := "", ""
+	for _, ins := range v.Instrs {
+		call, ok := ins.(*ssa.Call)
+		if !ok {
+			continue
+		}
+		sc := call.Call.StaticCallee()
+		if sc == nil {
+			continue
+		}
+		switch sc.String() {
+		case "bytes.IndexByte", "strings.IndexByte":
+			if search != nil {
+				problem = "more than one alphabet search"
+			}
+			search = call
+			switch a := call.Call.Args[0].(type) {
+			case *ssa.Const:
+				if a.Value != nil && a.Value.Kind() == constant.String {
+					alphabet = constant.StringVal(a.Value)
+				}
+			case *ssa.UnOp:
+				if g, isG := a.X.(*ssa.Global); isG && a.Op == token.MUL {
+					if s, ok := globalStringBytes(c.P, g); ok {
+						alphabet = s
+					} else {
+						problem = "the alphabet " + g.Name() + " is not a constant that nothing writes"
+					}
+				}
+			}
+		}
+	}
+	key := "a25.set58/digit"
+	if search == nil {
+		c.Undecided("T-b58", key, fn.Pos(), "the digit of a character is not read by an index search in the alphabet (bytes.IndexByte / strings.IndexByte): the mapping cannot be evaluated")
+		return
+	}
+	// the character searched for is an element of the argument
+	isChar := false
+	switch x := search.Call.Args[1].(type) {
+	case *ssa.UnOp:
+		if ia, ok := x.X.(*ssa.IndexAddr); ok && x.Op == token.MUL && len(fn.Params) > 1 && ia.X == ssa.Value(fn.Params[1]) {
+			isChar = true
+		}
+	case *ssa.Index:
+		isChar = len(fn.Params) > 1 && x.X == ssa.Value(fn.Params[1])
+	}
+	// a miss is refused: the search result is tested negative and that branch returns an error; the digit is
+	// used (merged into the carry) only where the test failed
+	refused := false
+	for _, b := range v.Blocks {
+		iff, ok := b.Instrs[len(b.Instrs)-1].(*ssa.If)
+		if !ok {
+			continue
+		}
+		bo, ok := iff.Cond.(*ssa.BinOp)
+		if !ok || bo.X != ssa.Value(search) {
+			continue
+		}
+		k, isK := constInt(bo.Y)
+		if !isK {
+			continue
+		}
+		var errSucc *ssa.BasicBlock
+		switch {
+		case bo.Op == token.LSS && k.Sign() == 0, bo.Op == token.EQL && k.Int64() == -1, bo.Op == token.LEQ && k.Int64() == -1:
+			errSucc = b.Succs[0]
+		case bo.Op == token.GEQ && k.Sign() == 0, bo.Op == token.NEQ && k.Int64() == -1, bo.Op == token.GTR && k.Int64() == -1:
+			errSucc = b.Succs[1]
+		}
+		if errSucc == nil {
+			continue
+		}
+		if r, isRet := errSucc.Instrs[len(errSucc.Instrs)-1].(*ssa.Return); isRet && len(r.Results) > 0 && returnKinds(r.Results[len(r.Results)-1]) == 2 {
+			refused = true
+		}
+	}
+	switch {
+	case problem != "":
+		c.Fail("T-b58", key, search.Pos(), "the validator's Base58 digit mapping: "+problem)
+	case alphabet != base58Alphabet:
+		c.Fail("T-b58", key, search.Pos(), fmt.Sprintf("the validator decodes with the alphabet %q, Base58 is %q", alphabet, base58Alphabet))
+	case !isChar:
+		c.Fail("T-b58", key, search.Pos(), "the value looked up in the alphabet is not the character of the address itself (it is transformed first): bytes outside the alphabet can be read as digits")
+	case !refused:
+		c.Fail("T-b58", key, search.Pos(), "a character that is not in the alphabet is not refused (no error return on a negative search result)")
+	default:
+		c.OK("T-b58", key, search.Pos(), "digit = position in the 58-character alphabet for all 256 byte values; any other byte is refused")
+	}
+}
+
+// globalStringBytes: a package-level []byte variable initialised with []byte("constant") (or a string
+// constant) that is only read: loaded to be indexed, measured or searched.
+func globalStringBytes(p *Prog, g *ssa.Global) (string, bool) {
+	pk := p.Pkgs[g.Pkg.Pkg.Path()]
+	if pk == nil {
+		return "", false
+	}
+	val, found := "", false
+	for _, f := range pk.Syntax {
+		for _, d := range f.Decls {
+			gd, ok := d.(*ast.GenDecl)
+			if !ok || gd.Tok != token.VAR {
+				continue
+			}
+			for _, s := range gd.Specs {
+				vs := s.(*ast.ValueSpec)
+				for i, n := range vs.Names {
+					if n.Name != g.Name() || i >= len(vs.Values) {
+						continue
+					}
+					e := vs.Values[i]
+					if ce, ok := e.(*ast.CallExpr); ok && len(ce.Args) == 1 {
+						e = ce.Args[0]
+					}
+					if cv, ok := constOf(pk, e); ok && cv.Kind() == constant.String {
+						val, found = constant.StringVal(cv), true
+					}
+				}
+			}
+		}
+	}
+	if !found {
+		return "", false
+	}
+	// only read
+	for _, spk := range p.ScopePkgs() {
+		for _, fn := range pkgFunctions(p, spk.PkgPath) {
+			for _, b := range fn.Blocks {
+				for _, ins := range b.Instrs {
+					for _, op := range ins.Operands(nil) {
+						if *op != ssa.Value(g) {
+							continue
+						}
+						switch x := ins.(type) {
+						case *ssa.Store:
+							if fn.Name() != "init" || x.Addr != ssa.Value(g) {
+								return "", false
+							}
+						case *ssa.UnOp:
+							if x.Referrers() == nil {
+								continue
+							}
+							for _, r := range *x.Referrers() {
+								switch y := r.(type) {
+								case *ssa.Index, *ssa.Range, *ssa.DebugRef, *ssa.Lookup:
+								case *ssa.IndexAddr:
+									if y.Referrers() != nil {
+										for _, r2 := range *y.Referrers() {
+											if _, isSt := r2.(*ssa.Store); isSt {
+												return "", false
+											}
+										}
+									}
+								case *ssa.Call:
+									if bi, ok := y.Call.Value.(*ssa.Builtin); ok && bi.Name() == "len" {
+										continue
+									}
+									if sc := y.Call.StaticCallee(); sc != nil && (sc.String() == "bytes.IndexByte" || sc.String() == "bytes.Contains" || sc.String() == "bytes.Index") {
+										continue
+									}
+									return "", false
+								default:
+									return "", false
+								}
+							}
+						case *ssa.DebugRef:
+						default:
+							return "", false
+						}
+					}
+				}
+			}
+		}
+	}
+	return val, true
 }
